@@ -1,3 +1,4 @@
 pub mod ops;
 pub mod machine;
 pub mod consteval;
+pub mod codec;
